@@ -33,7 +33,7 @@ W: dict = {}          # per-process state: griffe module, scratch dir, templates
 REC = None            # the active Recorder (None: wrappers pass through)
 
 TMP_BRANCH_TABLE = {"v1": "griffe-v1", "feat/x": "griffe-feat-x", "x": "griffe-x", "bad": "griffe-bad", "v0": "griffe-v0", "nope": "griffe-nope", "HEAD": "griffe-HEAD",
-                    "feat-x": "griffe-feat-x", "HEAD~1": "griffe-HEAD-1", "refs/tags/v1": "griffe-refs-tags-v1"}
+                    "feat-x": "griffe-feat-x", "HEAD~1": "griffe-HEAD-1", "refs/tags/v1": "griffe-refs-tags-v1", "side/y": "griffe-side-y"}
 
 
 class ExtBoom(Exception):
@@ -600,7 +600,7 @@ def run_case(case: dict) -> dict:
                     what = f"obj.lines has {len(got)} lines after the checkout was removed, the file at {ref} has {len(want)}"
                 if ok:
                     # members re-exported from the private sibling package: usable through the alias
-                    api = 1 if (("HEAD" if ref == "WT" else ref) in ("v1", "x", "refs/tags/v1")) else 2
+                    api = 1 if (("HEAD" if ref == "WT" else ref) in ("v1", "x", "refs/tags/v1", "side/y")) else 2
                     fal = obj["f"]
                     tgt = fal.final_target if fal.is_alias else fal      # raises AliasResolutionError when unresolvable
                     names = [p.name for p in fal.parameters]
